@@ -116,6 +116,32 @@ pub fn relation(a: &Actor, k: &Kind) -> Rel {
     }
 }
 
+/// Finer label for the evidence tables (the verdict only depends on `relation`).
+pub fn rel_label(a: &Actor, k: &Kind) -> String {
+    let r = relation(a, k);
+    let base = r.name();
+    match (r, &k.bp) {
+        (Rel::Foreign, Some((p, n))) => {
+            let probe_pkg = *p != RESOURCE_PACKAGE && *p != METADATA_MODULE_PACKAGE && *p != ROLE_ASSIGNMENT_MODULE_PACKAGE && *p != ROYALTY_MODULE_PACKAGE && *p != ACCOUNT_PACKAGE;
+            if probe_pkg && (*n == a.bp || n == BP || n == BP_INNER) {
+                format!("{base}:same-blueprint-name-other-package{}", if k.outer.is_some() { "(inner-of-other-outer)" } else { "" })
+            } else {
+                format!("{base}:native{}", if k.outer.is_some() { "(inner-of-other-outer)" } else { "" })
+            }
+        }
+        (Rel::SamePackage, Some((_, n))) => {
+            if k.outer.is_some() {
+                "same-package:inner-of-other-outer".to_string()
+            } else if *n != a.bp {
+                "same-package:other-blueprint".to_string()
+            } else {
+                base.to_string()
+            }
+        }
+        _ => base.to_string(),
+    }
+}
+
 pub fn kind_from_db(db: &Db, n: &NodeId) -> Option<Kind> {
     match decode::type_info(db, n)? {
         TypeInfoSubstate::Object(o) => {
@@ -488,7 +514,7 @@ impl<'a> Judge<'a> {
                     }
                     Some(k) => {
                         let rel = relation(actor, k);
-                        let relname = format!("{}{}{}", if k.class == Class::Reservation { "reservation-for-" } else { "" }, rel.name(), label);
+                        let relname = format!("{}{}{}", if k.class == Class::Reservation { "reservation-for-" } else { "" }, rel_label(actor, k), label);
                         let must_fail = prot || rel == Rel::Foreign || (k.class == Class::KvStore && matches!(t, Tgt::Raw(_)));
                         if must_fail {
                             self.record(shard, actor, st, &relname, "must-fail");
@@ -526,7 +552,7 @@ impl<'a> Judge<'a> {
                 let prot = protected(&st.target);
                 let rel = kind.as_ref().map(|k| relation(actor, k)).unwrap_or(Rel::Unknown);
                 let rrel = rkind.as_ref().map(|k| relation(actor, k));
-                let relname = format!("{}{}|reservation:{}", rel.name(), label, match (reservation, rrel) { (None, _) => "none", (Some(_), Some(r)) => r.name(), (Some(_), None) => "unknown" });
+                let relname = format!("{}{}|reservation:{}", kind.as_ref().map(|k| rel_label(actor, k)).unwrap_or_else(|| "unknown".to_string()), label, match (reservation, rrel) { (None, _) => "none", (Some(_), Some(r)) => r.name(), (Some(_), None) => "unknown" });
                 let must_fail = prot || rel == Rel::Foreign || rrel == Some(Rel::Foreign) || kind.as_ref().map(|k| k.class != Class::Object).unwrap_or(false);
                 if must_fail {
                     self.record(shard, actor, st, &relname, "must-fail");
@@ -818,6 +844,9 @@ impl<'a> Gen<'a> {
                     next += 1;
                 }
                 10..=12 => {
+                    if !ctx.is_method && self.rng.chance(4, 5) {
+                        continue;
+                    }
                     ops.push(Op::NewKvStore { dst });
                     syms.insert(dst, Sym::Store);
                     next += 1;
@@ -1002,11 +1031,12 @@ impl<'a> Gen<'a> {
                 },
                 86..=90 => match self.rng.below(5) {
                     0 | 1 => {
-                        if let Some(s) = self.pick_slot(&syms, |s| !matches!(s, Sym::Res(_) | Sym::Ref | Sym::Proof | Sym::Bucket | Sym::EmptyBucket | Sym::Module)) {
+                        if let Some(s) = self.pick_slot(&syms, |s| !matches!(s, Sym::Res(_) | Sym::Ref | Sym::Proof | Sym::Bucket | Sym::EmptyBucket | Sym::Module | Sym::Unknown)) {
                             if lent.contains(&s) {
                                 continue;
                             }
-                            let key = vec![b'k', dst];
+                            let mut key = vec![b'k', dst];
+                            key.extend(self.rng.bytes(6));
                             ops.push(Op::StoreInKv { slot: s, key: key.clone() });
                             stored_keys.push(key.clone());
                             if self.rng.bool() {
@@ -1024,6 +1054,7 @@ impl<'a> Gen<'a> {
                         if let (Some(s), Some(st)) = (self.pick_slot(&syms, |s| matches!(s, Sym::Obj(_) | Sym::Vault | Sym::Module | Sym::Inner(_))), self.pick_slot(&syms, |s| *s == Sym::Store)) {
                             if !lent.contains(&s) && !lent.contains(&st) {
                                 ops.push(Op::StoreInStore { slot: s, store: st, key: vec![b's', dst] });
+                                syms.remove(&s);
                             }
                         }
                     }
